@@ -193,6 +193,27 @@ def signatures(prog):
                 if any(sb in body and bb not in body for body in loops.values()):
                     continue
                 at |= _atoms(F, sb, du)
+                # a materialised boolean (`let is_dead = matches!(state, ..); if is_dead {..}`): the test is on a
+                # local assigned constants under other tests - those tests are what the effect depends on
+                on = F.blocks[sb]["term"]["on"]
+                pl = on.get("copy") or on.get("move") if isinstance(on, dict) else None
+                if pl and not pl["proj"]:
+                    loc = pl["local"]
+                    for _ in range(6):      # follow `let x = y;` copies back to the materialised boolean
+                        ds = du.defs.get(loc, [])
+                        if len(ds) == 1 and ds[0][0] == "assign" and "use" in (ds[0][1].rv or {}):
+                            u = ds[0][1].rv["use"]
+                            p2 = u.get("copy") or u.get("move")
+                            if p2 and not p2["proj"]:
+                                loc = p2["local"]
+                                continue
+                        break
+                    defs = du.defs.get(loc, [])
+                    if len(defs) > 1 and all(k == "assign" and "use" in (s_.rv or {}) and "const" in s_.rv["use"]
+                                             for k, s_ in defs):
+                        for _k, s_ in defs:
+                            for sb2, _c2 in c.controlling_switches(s_.bb):
+                                at |= _atoms(F, sb2, du)
             cache[ck] = sorted(at)
         return cache[ck]
 
